@@ -119,7 +119,7 @@ var forms = []form{
 		return "f_nested.go", "package main\n\nfunc nested(m map[string]" + t + ", a " + t + ") ([]string, bool) {\n\treturn deriveSortN(deriveKeysN(m)), deriveEqualN(deriveCloneN(a), a)\n}\n"
 	}},
 	{"deeply-nested-derive-calls", func(t, z string) (string, string) {
-		return "f_deep.go", "package main\n\nfunc deep(m map[string]" + t + ") ([]string, int) {\n" +
+		return "f_deep.go", "package main\n\nfunc deep(m map[string][]" + t + ") ([]string, int) {\n" +
 			"\ta := deriveUniqueD(deriveSortD(deriveKeysD(deriveSetD(deriveKeysD2(m)))))\n" +
 			"\tk := deriveKeysD2(m)\n\ts := deriveSetD(k)\n\tk2 := deriveKeysD(s)\n\tso := deriveSortD(k2)\n\tu := deriveUniqueD(so)\n\tj := deriveJoinD(deriveFmapD(func(x string) []string { return []string{x} }, u))\n" +
 			"\treturn a, len(deriveUnionD(j, deriveIntersectD(a, u)))\n}\n"
